@@ -229,6 +229,14 @@ def report_violations(mod, prop, agg_viol, gen_case, known, max_reports=6):
         try:
             cres = child_exec(prop, small)
             ok = same_violation(cres, v, prop, known) is not None and cres["digest"] == res["digest"]
+            if not ok and same_violation(cres, v, prop, known) is not None:
+                # the fresh interpreter fails the same way but its history differs from this (long-lived) process:
+                # the code under test keeps state between calls.  Two fresh interpreters must then agree exactly.
+                cres2 = child_exec(prop, small)
+                if cres2["digest"] == cres["digest"] and same_violation(cres2, v, prop, known) is not None:
+                    ok = True
+                    path = core.write_replay(prop, small, same_violation(cres, v, prop, known), cres["digest"], tag)
+                    lines.append("note: history of class=%s differs between this process and a fresh interpreter (state kept between calls); replay digest taken from fresh interpreters" % v["class"])
         except core.HarnessError as e:
             ok = False
             lines.append("HARNESS-ERROR: replay child failed: %s" % e)
